@@ -154,7 +154,6 @@ func (c *clsGen) privUse(r, n string, mode string) string {
 		"[" + f + ", " + f + " = 13, " + f + "]",
 		"([" + f + "] = [" + c.probe("8") + "], " + f + ")",
 		"({ a: " + f + " } = { a: " + c.probe("9") + " }, " + f + ")",
-		"[" + loopTarget + ", " + f + "]",
 	}
 	var alts []string
 	switch mode {
@@ -477,13 +476,20 @@ func (c *clsGen) classText(decl bool) string {
 	return sb.String()
 }
 
-var clsContexts = []string{"top", "block", "for-let", "for-var", "for-of", "for-in", "while", "do-while", "labelled-continue", "nested-loops", "function", "arrow-foreach", "arrow-map-expr", "method", "static-block-in-loop", "generator-loop", "async-loop", "try-finally-in-loop", "switch-in-loop", "if-in-loop", "for-head", "iife-in-loop", "loop-expr"}
+// contexts in which the class is evaluated once per function activation, and contexts in which one
+// activation evaluates it several times (the second group is where esbuild's function-scoped
+// temporaries are shared: known finding C05-class-temporaries-shared-across-loop-iterations)
+var clsContextsOnce = []string{"top", "block", "function", "arrow-foreach", "arrow-map-expr", "method", "iife-in-loop", "field-of-outer", "switch-once", "try-once", "label-block"}
+var clsContextsLoop = []string{"for-let", "for-var", "for-of", "for-in", "while", "do-while", "labelled-continue", "nested-loops", "static-block-in-loop", "generator-loop", "async-loop", "try-finally-in-loop", "switch-in-loop", "if-in-loop", "for-head", "loop-expr"}
 
 func genCls(rt *rapid.T) (string, []string) {
 	c := &clsGen{gen: newGen(rt)}
 	c.extends = c.chance("extends", 60)
-	ctx := clsContexts[c.n("ctx", len(clsContexts))]
-	exprOnly := ctx == "arrow-map-expr" || ctx == "for-head" || ctx == "iife-in-loop" || ctx == "loop-expr"
+	ctx := clsContextsOnce[c.n("ctxonce", len(clsContextsOnce))]
+	if c.chance("inloop", 30) {
+		ctx = clsContextsLoop[c.n("ctxloop", len(clsContextsLoop))]
+	}
+	exprOnly := ctx == "arrow-map-expr" || ctx == "for-head" || ctx == "iife-in-loop" || ctx == "loop-expr" || ctx == "field-of-outer"
 	c.named = !exprOnly || c.chance("named", 50)
 	if !c.named {
 		c.tag("class:anonymous")
@@ -556,6 +562,14 @@ func genCls(rt *rapid.T) (string, []string) {
 		body = "for (let i = 0, K; i < 2 && (K = " + cls + ", fns.push(K)); i++);"
 	case "iife-in-loop":
 		body = "for (let i = 0; i < 2; i++) { fns.push((() => " + cls + ")()); }"
+	case "field-of-outer":
+		body = "class Outer { constructor(i) { this.i = i; } k = ((i) => " + cls + ")(this.i); }\nfns.push(new Outer(0).k, new Outer(1).k);"
+	case "switch-once":
+		body = "var i = 7;\nswitch (i) { case 7:\n  " + cls + "\n  " + reg + "\n}"
+	case "try-once":
+		body = "var i = 7;\ntry {\n  " + cls + "\n  " + reg + "\n} finally { log(\"fin\"); }"
+	case "label-block":
+		body = "var i = 7;\nlbl: {\n  " + cls + "\n  " + reg + "\n  if (i) break lbl;\n  log(\"unreachable\");\n}"
 	case "loop-expr":
 		body = "for (let i = 0; i < 2; i++) { fns.push(" + cls + "); }"
 	}
@@ -621,16 +635,23 @@ func genCls(rt *rapid.T) (string, []string) {
 
 type patGen struct {
 	*gen
-	decl   bool            // declaration (fresh names) or assignment (existing targets)
-	names  []string        // names bound / assigned by the pattern, for logging
-	bound  map[string]bool // declaration form: names already bound (a duplicate is an early error)
-	usesO  bool
-	hasRst bool
+	decl bool // declaration (fresh names) or assignment (existing targets)
+	// aliasDecl: a declaration may re-declare the key variables k / k2. Not in parameter and catch positions:
+	// there the key `[k]` would read the binding being declared, a TDZ ReferenceError that esbuild (which
+	// moves a lowered parameter pattern into `var` declarations of the body) does not promise to keep.
+	aliasDecl bool
+	names     []string        // names bound / assigned by the pattern, for logging
+	bound     map[string]bool // declaration form: names already bound (a duplicate is an early error)
+	usesO     bool
+	hasRst    bool
 }
 
+// The source objects are built without computed keys in the literal: V8 calls an accessor that follows a
+// computed key of its literal once more while copying the rest of the object, although the key is
+// excluded (checked on Node 18/20/22) — a V8 quirk, not something esbuild has to reproduce.
 const patPrelude = `var k = "a", k2 = "b", cnt = 0, o = {}, sym = Symbol.for("s"), fns = [];
 var a, b, c, d, t1, t2, t3, r1, r2;
-function src(n) { log("src", n); return { a: 1, b: 2, c: { d: 3, e: 4, [sym]: 5 }, d: [6, 7], [sym]: 8, get e() { log("get e"); return 9; } }; }
+function src(n) { log("src", n); var s = { a: 1, b: 2, c: { d: 3, e: 4 }, d: [6, 7], get e() { log("get e"); return 9; } }; s[sym] = 8; s.c[sym] = 5; return s; }
 `
 
 func (g *patGen) keyName() string { return g.pick("key", "a", "b", "c", "d", "e") }
@@ -678,7 +699,10 @@ func (g *patGen) keyExpr() string {
 	}
 }
 
-func (g *patGen) defaultExpr() string {
+// defaultExpr: a default value; it may read the names bound before this element (never the element's
+// own or a later binding: that is a TDZ error whose loss in lowered parameter patterns is not a defect
+// this check claims).
+func (g *patGen) defaultExpr(avail int) string {
 	switch g.n("default", 7) {
 	case 0:
 		return g.probe(`"dflt"`)
@@ -692,9 +716,9 @@ func (g *patGen) defaultExpr() string {
 		g.tag("default:assigns-key-var")
 		return `(k2 = "a")`
 	case 4:
-		if len(g.names) > 0 {
+		if avail > 0 && avail <= len(g.names) {
 			g.tag("default:reads-earlier-binding")
-			return g.names[g.n("earlier", len(g.names))]
+			return g.names[g.n("earlier", avail)]
 		}
 		return "0"
 	case 5:
@@ -714,7 +738,7 @@ func (g *patGen) target(depth int) string {
 	}
 	if g.decl {
 		n := g.fresh("v")
-		if g.chance("declkeyvar", 12) {
+		if g.aliasDecl && g.chance("declkeyvar", 12) {
 			if alias := g.pick("declalias", "k", "k2"); !g.bound[alias] {
 				n = alias
 				g.tag("target:key-var")
@@ -794,21 +818,23 @@ func (g *patGen) objPat(depth int, rest bool) string {
 			g.bound[key] = true
 			g.names = append(g.names, key)
 			if g.chance("shorthanddefault", 30) {
-				parts = append(parts, key+" = "+g.defaultExpr())
+				parts = append(parts, key+" = "+g.defaultExpr(len(g.names)-1))
 			} else {
 				parts = append(parts, key)
 			}
 		case 1, 2:
+			avail := len(g.names)
 			s := g.keyName() + ": " + g.target(depth)
 			if g.chance("propdefault", 30) {
-				s += " = " + g.defaultExpr()
+				s += " = " + g.defaultExpr(avail)
 			}
 			parts = append(parts, s)
 		default:
 			g.tag("pattern:computed-key")
+			avail := len(g.names)
 			s := "[" + g.keyExpr() + "]: " + g.target(depth)
 			if g.chance("propdefault", 30) {
-				s += " = " + g.defaultExpr()
+				s += " = " + g.defaultExpr(avail)
 			}
 			parts = append(parts, s)
 		}
@@ -828,9 +854,10 @@ func (g *patGen) arrPat(depth int) string {
 			parts = append(parts, "")
 			continue
 		}
+		avail := len(g.names)
 		s := g.target(depth)
 		if g.chance("elemdefault", 25) {
-			s += " = " + g.defaultExpr()
+			s += " = " + g.defaultExpr(avail)
 		}
 		parts = append(parts, s)
 	}
@@ -876,6 +903,10 @@ func genPat(rt *rapid.T) (string, []string) {
 		g.decl = false
 	default:
 		g.decl = true
+	}
+	switch pos {
+	case "var", "let", "const", "for-of-decl", "for-in-decl", "for-await-decl", "in-array-decl", "for-init", "nested-default":
+		g.aliasDecl = true
 	}
 	rest := g.chance("rest", 85)
 	pat := g.objPat(1+g.n("depth", 2), rest)
